@@ -347,7 +347,7 @@ func runPart(top, p *Prop, pi int, tier string, seed uint64) ([]*shardResult, bo
 		procs = append(procs, proc{cmd, i})
 	}
 	// watchdog: wall budget + generous slack
-	slack := b.Wall*3 + 5*time.Minute
+	slack := b.Wall*3 + 5*time.Minute + 3*p.StallLimit
 	timer := time.AfterFunc(slack, func() {
 		for _, pr := range procs {
 			syscall.Kill(-pr.cmd.Process.Pid, syscall.SIGKILL)
@@ -542,12 +542,18 @@ func worker(p *Prop, tier string) (code int) {
 				fv.Seq, fv.Draws, fv.Scenario, fv.Reproduced = seq, c.Src.Render(), c.Log, true
 				continue
 			}
+			sb := shrinkBudget
+			if p.NeedNS && strings.HasPrefix(v.Kind, "hang") {
+				// a hang on real processes costs its whole watchdog every time it is re-run: it is confirmed once
+				// (below), not minimised
+				sb = 0
+			}
 			min := Shrink(seq, func(cand []uint64) bool {
 				c2 := NewCtx(NewReplay(cand))
 				c2.Tier, c2.Dir, c2.Replay = tier, wd, true
 				v2 := guarded(c2)
 				return v2 != nil && v2.Sig() == sig
-			}, shrinkBudget)
+			}, sb)
 			c3 := NewCtx(NewReplay(min))
 			c3.Tier, c3.Dir, c3.Replay = tier, wd, true
 			v3 := guarded(c3)
